@@ -65,6 +65,15 @@ impl ReactCache {
 // ---- ReactiveMut<T> (the query-level wrapper): set_if_neq / set_single_if_not_eq delegate to React::set_if_neq of the addressed entity ----
 pub struct QueryEntityError;
 pub type Mut<'a, T> = &'a mut T;
+// Mut::into_inner: the plain `&mut` (Bevy's Mut<T> is a smart pointer; here it IS `&mut T`)
+pub trait IntoInner<'a, T> { spec fn cur(&self) -> T; #[verifier::prophetic] spec fn fin(&self) -> T; fn into_inner(self) -> (r: &'a mut T) ensures *r == self.cur(), *final(r) == self.fin(); }
+impl<'a, T> IntoInner<'a, T> for &'a mut T {
+    open spec fn cur(&self) -> T { **self }
+    #[verifier::prophetic] open spec fn fin(&self) -> T { *final(*self) }
+    fn into_inner(self) -> (r: &'a mut T) { self }
+}
+#[verifier::external_body]
+pub fn type_name<T>() -> &'static str { core::any::type_name::<T>() }
 //@enum src/react/err.rs CobwebReactError
 pub trait QData { type Item<'a>; }
 #[verifier::external_body] #[verifier::accept_recursive_types(T)]
@@ -97,32 +106,38 @@ pub open spec fn set_spec<T: ReactComponent + PartialEq>(old_c: React<T>, new: T
             && log1 == log0.push(Queued::MutationTrigger { sys: sys_id(ReactCache::schedule_mutation_reaction::<T>), entity: old_c.entity })))
 }
 //@impl src/react/react_component.rs impl ReactiveMut
-// ASSUMED (bodies use Mut::into_inner, which the `Mut = &mut` stand-in does not have; discharged on the real code by K.accessors.reactive_mut.*):
-// get_mut / single_mut queue exactly ONE mutation trigger for the addressed entity and hand out its component
-//@extern? src/react/react_component.rs impl ReactiveMut get_mut ret=r
+// get_mut / single_mut queue exactly ONE mutation trigger for the addressed entity and hand out its component (Mut::into_inner via the stand-in trait IntoInner)
+//@fn src/react/react_component.rs impl ReactiveMut get_mut ret=r
+// precondition = the representation invariant of React<T>: the component records the entity it is attached to (established by ReactCommands::insert, unit react_commands)
+//@| requires old(self).components.comps().dom().contains(entity) ==> old(self).components.comps()[entity].entity == entity,
 //@| ensures *final(*final(c)) == *final(*old(c)),
 //@|         r is Ok <==> old(self).components.comps().dom().contains(entity),
 //@|         r is Err ==> ((*final(c)).log() == (*old(c)).log() && final(self).components.comps() == old(self).components.comps()),
 //@|         r is Ok ==> ((*final(c)).log() == (*old(c)).log().push(Queued::MutationTrigger { sys: sys_id(ReactCache::schedule_mutation_reaction::<T>), entity: entity })
 //@|             && *r->Ok_0 == old(self).components.comps()[entity].component
 //@|             && final(self).components.comps() == old(self).components.comps().insert(entity, React { entity: old(self).components.comps()[entity].entity, component: *final(r->Ok_0) })),
-//@extern? src/react/react_component.rs impl ReactiveMut single_mut ret=r
-//@| requires old(self).components.comps().dom().contains(old(self).components.the_one()),
+//@fn src/react/react_component.rs impl ReactiveMut single_mut ret=r
+//@| requires old(self).components.comps().dom().contains(old(self).components.the_one()), old(self).components.comps()[old(self).components.the_one()].entity == old(self).components.the_one(),
 //@| ensures *final(*final(c)) == *final(*old(c)), r.0 == old(self).components.the_one(),
 //@|         (*final(c)).log() == (*old(c)).log().push(Queued::MutationTrigger { sys: sys_id(ReactCache::schedule_mutation_reaction::<T>), entity: r.0 }),
 //@|         *r.1 == old(self).components.comps()[r.0].component,
 //@|         final(self).components.comps() == old(self).components.comps().insert(r.0, React { entity: old(self).components.comps()[r.0].entity, component: *final(r.1) }),
+//@fn src/react/react_component.rs impl ReactiveMut get_noreact ret=r
+//@| ensures r is Ok <==> old(self).components.comps().dom().contains(entity),
+//@|         r is Err ==> final(self).components.comps() == old(self).components.comps(),
+//@|         r is Ok ==> (*r->Ok_0 == old(self).components.comps()[entity].component
+//@|             && final(self).components.comps() == old(self).components.comps().insert(entity, React { entity: old(self).components.comps()[entity].entity, component: *final(r->Ok_0) })),
 //@fn src/react/react_component.rs impl ReactiveMut set_if_neq ret=r
-//@| requires T::obeys_eq_spec(),
+//@| requires T::obeys_eq_spec(), old(self).components.comps().dom().contains(entity) ==> old(self).components.comps()[entity].entity == entity,
 //@| ensures *final(*final(c)) == *final(*old(c)),
 //@|         !old(self).components.comps().dom().contains(entity) ==> (r is None && (*final(c)).log() == (*old(c)).log() && final(self).components.comps() == old(self).components.comps()),
-//@|         old(self).components.comps().dom().contains(entity) ==> (exists|nc: React<T>| #![trigger old(self).components.comps().insert(entity, nc)] final(self).components.comps() == old(self).components.comps().insert(entity, nc)
-//@|             && set_spec(old(self).components.comps()[entity], new, nc, (*old(c)).log(), (*final(c)).log(), r)),
+//@|         old(self).components.comps().dom().contains(entity) ==> ({ let nc = final(self).components.comps()[entity];
+//@|             final(self).components.comps() =~= old(self).components.comps().insert(entity, nc) && set_spec(old(self).components.comps()[entity], new, nc, (*old(c)).log(), (*final(c)).log(), r) }),
 //@fn src/react/react_component.rs impl ReactiveMut set_single_if_not_eq ret=r
-//@| requires T::obeys_eq_spec(), old(self).components.comps().dom().contains(old(self).components.the_one()),
+//@| requires T::obeys_eq_spec(), old(self).components.comps().dom().contains(old(self).components.the_one()), old(self).components.comps()[old(self).components.the_one()].entity == old(self).components.the_one(),
 //@| ensures *final(*final(c)) == *final(*old(c)), r.0 == old(self).components.the_one(),
-//@|         exists|nc: React<T>| #![trigger old(self).components.comps().insert(r.0, nc)] final(self).components.comps() == old(self).components.comps().insert(r.0, nc)
-//@|             && set_spec(old(self).components.comps()[r.0], new, nc, (*old(c)).log(), (*final(c)).log(), r.1),
+//@|         ({ let nc = final(self).components.comps()[r.0];
+//@|             final(self).components.comps() =~= old(self).components.comps().insert(r.0, nc) && set_spec(old(self).components.comps()[r.0], new, nc, (*old(c)).log(), (*final(c)).log(), r.1) }),
 //@endimpl
 
 //@struct src/react/react_resource.rs ReactResInner
